@@ -353,3 +353,54 @@ def _narrowest_use(f, x, seen=None):
         elif y.op in ('phi', 'select'):
             w = min(w, _narrowest_use(f, y, seen))
     return w
+
+
+def r7_whole_w_tested(ck, P):
+    """a shortcut that skips the division by w must look at all of w"""
+    R = ck.rule('C11-R7', 'in the 31.16 point transform the homogeneous coordinate w is held as an integer part and a 16-bit fraction; every shortcut taken on the integer part being a particular constant (w == 1: no division, w == 0: refuse) is taken only when the fraction is tested to be zero as well', floor=2)
+    f = P.fn('pixman_transform_point_31_16', required=False)
+    if f is None:
+        ck.incomplete(R, 'pixman_transform_point_31_16 not found'); return
+    ck.saw(f)
+    di = [x for x in f.insts() if x.dv == 'divint' and x.op not in ('alloca',)]
+    df = [x for x in f.insts() if x.dv == 'divfrac' and x.op not in ('alloca',)]
+    if not di or not df:
+        ck.incomplete(R, 'the integer/fraction split of w (divint, divfrac) is no longer recognisable'); return
+    DI = {x.i for x in di}; DF = {x.i for x in df}
+
+    def is_test(c, ids, k=None):
+        if c is None or c.op != 'icmp' or c.d['p'] != 'eq':
+            return False
+        def chain_hits(o):
+            for _ in range(8):
+                if o[0] != 'v':
+                    return False
+                if o[1] in ids:
+                    return True
+                y = f.by_id[o[1]]
+                if y.op in ('zext', 'sext', 'trunc', 'freeze', 'bitcast'):
+                    o = y.a[0]; continue
+                return False
+            return False
+        if not any(chain_hits(o) for o in c.a):
+            return False
+        cs = [int(o[1]) for o in c.a if o[0] == 'c']
+        return bool(cs) and (k is None or cs[0] == k)
+
+    n = 0
+    for b in f.blocks:
+        ge = f.guard_edges(b.id)
+        ints = [(t, s_) for t, s_ in ge if t.a and is_test(f.v(t.a[0]), DI) and t.d['succ'][0] == s_]
+        if not ints:
+            continue
+        if not any(x.op in ('store', 'call', 'ret') and not (x.op == 'call' and (x.callee or '').startswith('llvm.dbg')) for x in b.insts):
+            continue                         # a block that only goes on testing
+        fr = [(t, s_) for t, s_ in ge if t.a and is_test(f.v(t.a[0]), DF, 0) and t.d['succ'][0] == s_]
+        n += 1
+        k = [int(o[1]) for o in f.v(ints[0][0].a[0]).a if o[0] == 'c'][0]
+        if fr:
+            ck.ok(R, 'block %d: shortcut for integer part == %d also requires fraction == 0' % (b.id, k))
+        else:
+            ck.violation(R, f.name, 'shortcut on the integer part of w == %d' % k, 'pixman_transform_point_31_16 takes the w == %s shortcut whenever the integer part of w equals %d, without testing the 16-bit fraction: for w slightly above that value the division is skipped and the result is off by value * 2^-16 while TRUE is returned' % ('1.0' if k == 65536 else str(k), k), b.insts[0].loc())
+    if n == 0:
+        ck.incomplete(R, 'no shortcut on the integer part of w found')
